@@ -44,16 +44,19 @@ class StubGraph:
     def run(self, query):
         self.queries.append(query)
         nodes, rels = self.store
+        import re
         q = ' '.join(query.split())
-        if q == 'MATCH (a) WHERE a.type IS NOT NULL RETURN DISTINCT a':
-            rows = [{'a': n} for n in nodes if dict(n).get('type') is not None]
-        elif q == 'MATCH (a)-[r1]->(b),(a)<-[r2]-(b) WHERE a.type IS NOT NULL RETURN DISTINCT a, r1, r2, b':
+        m1 = re.fullmatch(r'MATCH \(a\) WHERE a\.(\w+) IS NOT NULL RETURN DISTINCT a', q)
+        m2 = re.fullmatch(r'MATCH \(a\)-\[r1\]->\(b\),\(a\)<-\[r2\]-\(b\) WHERE a\.(\w+) IS NOT NULL RETURN DISTINCT a, r1, r2, b', q)
+        if m1:
+            rows = [{'a': n} for n in nodes if dict(n).get(m1.group(1)) is not None]
+        elif m2:
             rows = []
             for r1 in rels:
                 for r2 in rels:
                     if r1 is r2:
                         continue
-                    if r1.start_node is r2.end_node and r1.end_node is r2.start_node and dict(r1.start_node).get('type') is not None:
+                    if r1.start_node is r2.end_node and r1.end_node is r2.start_node and dict(r1.start_node).get(m2.group(1)) is not None:
                         rows.append({'a': r1.start_node, 'r1': r1, 'r2': r2, 'b': r1.end_node})
         else:
             raise AssertionError('stand-in does not know this query: ' + query)
@@ -160,6 +163,34 @@ def check_model(fx, m, case, stats, all_orders=True):
               expected=sorted(want_links - link_set(m2)), observed={'extra': sorted(link_set(m2) - want_links), 'row_order': list(perm)})
             break
     StubGraph.row_order = None
+    # the model and its attack graph in ONE database (what `maltoolbox attack-graph generate --neo4j` does):
+    # reading the model back must not be disturbed by the attack step nodes and edges
+    if not viols and fx.lang_graph is not None and m.assets:
+        try:
+            from maltoolbox.attackgraph import AttackGraph
+            saved = [list(getattr(a, 'attack_step_nodes', [])) for a in m.assets]
+            ag = AttackGraph(fx.lang_graph, m)
+            StubGraph.instances.clear()
+            ing.ingest_attack_graph(ag, 'bolt://x', 'u', 'p', 'db', delete=False)
+            gsub = StubGraph.instances[-1].created[0]
+            for a, nodes in zip(m.assets, saved):
+                a.attack_step_nodes = nodes
+        except Exception:  # noqa: BLE001  (graph generation / export are C01 / check_graph's business)
+            gsub = None
+        if gsub is not None:
+            mn, mr = sorted_store(sub)
+            gn, gr = sorted_store(gsub)
+            StubGraph.preload = (mn + gn, mr + gr)
+            stats['imports'] = stats.get('imports', 0) + 1
+            try:
+                m3 = ing.get_model('bolt://x', 'u', 'p', 'db', fx.lang_graph, fx.factory)
+                got_assets = sorted((int(a.id), str(a.name), str(a.type)) for a in m3.assets) if m3 is not None else None
+                if got_assets != want_assets or link_set(m3) != want_links:
+                    V('shared_database:imported_model_differs', 'with the attack graph in the same database the model read back differs',
+                      expected=want_assets, observed=got_assets)
+            except Exception as e:  # noqa: BLE001
+                V(f'shared_database:get_model_raised:{type(e).__name__}',
+                  f'with the attack graph ingested into the same database get_model raised {str(e)[:200]}')
     return viols
 
 
